@@ -1,5 +1,6 @@
 import CpModel.Proto
 import CpModel.MultipartR
+import CpModel.MultipartHdr
 /-!
   Driver for C04 (multipart parser).  One case per line, three fields:
 
@@ -7,8 +8,16 @@ import CpModel.MultipartR
 
   (LENGTH = declared Content-Length or `N`; FRAG as in the C05 driver; CONNHEX = everything the connection
   holds, possibly more than LENGTH.)  The concrete parser `CpModel.MultipartR` is executed.
-  Output: `ok off=<stream offset|N> x=0 G=<name>:<i>+<j>,… P <name> <filename> <ctype> <spilled> <content> P …`
-  (hex fields, `N` for None, `-` for empty) or `err:<kind>`.
+  Output: `ok off=<stream offset|N> x=0 G=<name>:<i>+<j>,… P <name> <filename> <ctype> <spilled> <content>
+  <headers> <filenameX> <charset> <proc> <inFile> <entry> P …` (hex fields, `N` for None, `-` for empty) or `err:<kind>`;
+  headers = `<key>:<value>;…` as the part's HeaderMap holds them (title-cased keys); filenameX = the filename after
+  `filename*` as code points (`E` = 400); charset = the part's charset parameter; proc = function `Part.process`
+  runs; inFile = 1 when the content ends up in `part.file`; entry = `K` kept in parts | `F` file parameter |
+  `T<code points>` decoded field | `U` no charset decodes it (400); then the content decoded as a field value
+  (`T…` | `U`) whatever the part is (used for `multipart/*` bodies other than form-data).
+  Unit lines: `fnstar ENCHEX VALHEX` → `E` | code points; `dec CHARSETHEX|N CONTENTHEX` → `U` | code points;
+  `hdr LINEHEX,LINEHEX,…` → `err` | headers as above (the header block folded by `hdrStep`);
+  `cd VALUEHEX` → `E` (400) | `<name> <filename code points>` of a Content-Disposition value (`filename*` included).
 -/
 open CpModel CpModel.Reader CpModel.Multipart CpModel.MultipartR
 
@@ -21,6 +30,60 @@ def optHex : Option Bytes → String
 def showErr : Err → String
   | .eofHeaders => "eofHeaders" | .eofBody => "eofBody" | .noCRLF => "noCRLF"
   | .noColon => "noColon" | .badContinuation => "badContinuation" | .reader413 => "reader413" | .fuel => "fuel"
+
+def showPoints (ps : List Nat) : String :=
+  if ps.isEmpty then "-" else ".".intercalate (ps.map toString)
+
+def showHdrs (hs : List (Bytes × Bytes)) : String :=
+  if hs.isEmpty then "-" else ";".intercalate ((headersOut hs).map fun (k, v) => Proto.hex k ++ ":" ++ Proto.hex v)
+
+def showEntry (e : Option FormEntry) : String :=
+  match e with
+  | none => "U"
+  | some .kept => "K"
+  | some .file => "F"
+  | some (.field t) => "T" ++ showPoints t
+
+def showPartX (p : RawPart) : String :=
+  match partInfoX p.headers with
+  | .error _ => s!" {showHdrs p.headers} E N - 0 U U"
+  | .ok i =>
+    let fn := match i.filename with | none => "N" | some f => showPoints f
+    s!" {showHdrs p.headers} {fn} {optHex i.charset} {Proto.hex (partProc i.ctype)} " ++
+    s!"{if storedInFile i.filename p.spilled then 1 else 0} {showEntry (formEntry i p.content)} " ++
+    (match decodeField (attemptCharsets i.charset) p.content with | none => "U" | some t => "T" ++ showPoints t)
+
+def foldHdrs : List Bytes → Option Bytes → List (Bytes × Bytes) → Option (List (Bytes × Bytes))
+  | [], _, hs => some hs
+  | l :: ls, lk, hs =>
+    if !endsWith l CRLF then none else     -- `read_headers`: 'MIME requires CRLF terminators'
+    match hdrStep l lk hs with
+    | .error _ => none
+    | .ok (lk', hs') => foldHdrs ls lk' hs'
+
+def stepUnit (fs : List String) : Option String :=
+  match fs with
+  | ["fnstar", e, v] =>
+    match Proto.unhex? e, Proto.unhex? v with
+    | some e, some v => some (match unquoteText (codecOf e) v with | none => "E" | some t => showPoints t)
+    | _, _ => none
+  | ["dec", c, v] =>
+    let cs := if c == "N" then some none else (Proto.unhex? c).map some
+    match cs, Proto.unhex? v with
+    | some cs, some v => some (match decodeField (attemptCharsets cs) v with | none => "U" | some t => showPoints t)
+    | _, _ => none
+  | ["hdr", ls] =>
+    match (if ls == "-" then some [] else (ls.splitOn ",").mapM Proto.unhex?) with
+    | some ls => some (match foldHdrs ls none [] with | none => "err" | some hs => showHdrs hs)
+    | none => none
+  | ["cd", v] =>
+    match Proto.unhex? v with
+    | some v =>
+      some (match partInfoX [(K_CD, v)] with
+        | .error _ => "E"
+        | .ok i => s!"{optHex i.name} {match i.filename with | none => "N" | some f => showPoints f}")
+    | none => none
+  | _ => none
 
 def parseNats (s : String) : Option (List Nat) :=
   if s == "-" then some [] else (s.splitOn ",").mapM (·.toNat?)
@@ -36,12 +99,16 @@ def step (line : String) : String :=
       | .ok (parts, st) =>
         let ps := parts.map fun p =>
           let i := partInfo p.headers
-          s!" P {optHex i.name} {optHex i.filename} {Proto.hex i.ctype} {if p.spilled then 1 else 0} {Proto.hex p.content}"
+          s!" P {optHex i.name} {optHex i.filename} {Proto.hex i.ctype} {if p.spilled then 1 else 0} {Proto.hex p.content}" ++
+            showPartX p
         let g := (formParams (parts.map fun p => partInfo p.headers)).map fun (k, vs) =>
           s!"{Proto.hex k}:" ++ "+".intercalate (vs.map toString)
         let off := match st with | some s => toString s.off | none => "N"
         s!"ok off={off} x=0 G={if g.isEmpty then "-" else ",".intercalate g}" ++ String.join ps
     | _, _, _, _, _, _ => "bad-op"
+  | kw :: rest =>
+    if kw == "fnstar" || kw == "dec" || kw == "hdr" || kw == "cd" then (stepUnit (kw :: rest)).getD "bad-op"
+    else "bad-op"
   | _ => "bad-op"
 
 end Drv.C04
